@@ -95,7 +95,9 @@ def rel_C04(f):
 def rel_C05(f):
     if f[0] == "fn.out":
         return f[3][0] in ("q", "qo")
-    return f[0] in ("fn.queue_identity", "fn.flow_identity", "fn.feed_identity", "np.flow", "np.flow_ok") or f[0] in ALWAYS
+    # fn.nodecons: at every node, the inflows recovered from the density updates of the leaving links add up to the
+    # REPORTED flows of the entering links and origins (the feed identity at nodes that have entering links)
+    return f[0] in ("fn.queue_identity", "fn.flow_identity", "fn.feed_identity", "fn.nodecons", "np.flow", "np.flow_ok") or f[0] in ALWAYS
 
 
 def rel_C07(f):
